@@ -3,11 +3,14 @@
    after a successful Compile the builder cannot be modified and the runnable obtained
    is unaffected by every later call, including another Compile.
    The statements are about the executable model Model/Builder.v (version [fixed] = the
-   tree after the repairs F-C20a..d); determinism is by construction: every step is a
-   function of the state and the call, and the one place where Go iterates a map with an
-   observable effect (Workflow.compile) takes the order as an argument [ord] over which
-   the theorems quantify.  Only statements, each closed by [exact]. *)
-From Eino Require Import Base.Util Model.Builder Proofs.Builder Proofs.BuilderReject Proofs.BuilderDag Proofs.BuilderSound Proofs.BuilderReject2.
+   tree after the repairs F-C20a..d), whose steps the correspondence check compares with
+   the implementation outcome by outcome and state by state.  Determinism: every step is a
+   function of the state and the call; the places where Go iterates a map are either a
+   parameter over which the theorems quantify (Workflow.compile's visiting order [ord];
+   accept / reject is proved independent of it) or proved irrelevant (validateDAG's
+   sweeps, the type inference loop).  Only statements, each closed by [exact]. *)
+From Eino Require Import Base.Util Model.Builder Proofs.Builder Proofs.BuilderReject Proofs.BuilderDag Proofs.BuilderSound Proofs.BuilderReject2 Proofs.BuilderInfer Proofs.BuilderWfOrder.
+From Coq Require Import Permutation.
 Local Open Scope string_scope.
 Local Open Scope list_scope.
 
@@ -223,6 +226,66 @@ Example validateDAG_order_independent_nonvacuous :
     reach (ctrl_pairs g) (keys g) (init (ctrl_pairs g) (keys g)) (dag_final (ctrl_pairs g) (keys g)) /\
     stable (keys g) (dag_final (ctrl_pairs g) (keys g)).
 Proof. exact any_order_example. Qed.
+
+(* ------------------------------------------------------------------ determinism of type inference *)
+(* updateToValidateMap (inference of pass-through types; it decides the "cannot be inferred"
+   rejection) loops over a Go map.  Any two runs of the loop — pending entries resolved in
+   ANY order, until no entry is resolvable — from a state [g0] whose pending ends are known
+   nodes end with the same input/output type flags for every node and the same pending
+   entries; the model's [update_pending] is one such run; and the side conditions hold
+   wherever AddEdge / AddBranch call it, in every reachable state of every front-end. *)
+Theorem inference_order_independent :
+  (forall g0 g1 g2, io_ok g0 -> ends_ok g0 ->
+      ireach g0 g1 -> istable g1 -> ireach g0 g2 -> istable g2 ->
+      (forall k, in_typed g1 k = in_typed g2 k /\ out_typed g1 k = out_typed g2 k) /\
+      Permutation (g_pending g1) (g_pending g2))
+  /\ (forall g, ireach g (update_pending g) /\ istable (update_pending g))
+  /\ (forall g s e fs g',
+      pinv g -> (is_se s = true \/ has_node g s = true) -> (is_se e = true \/ has_node g e = true) ->
+      let g1 := set_pending (g_pending g ++ [(s, e, fs)]) g in
+      ireach g1 g' -> istable g' ->
+      (forall k, in_typed g' k = in_typed (update_pending g1) k /\ out_typed g' k = out_typed (update_pending g1) k) /\
+      Permutation (g_pending g') (g_pending (update_pending g1)))
+  /\ ((forall v st cs, pinv (final (gstep v) (g_init CGraph st) cs))
+      /\ (forall v st cs, pinv (c_g (final (cstep v) (c_init st) cs)))
+      /\ (forall v st cs, pinv (w_g (final (wstep v) (w_init st) cs)))).
+Proof.
+  exact (conj infer_order_independent (conj update_pending_is_a_run (conj push_then_infer_any_order reachable_pinv))).
+Qed.
+Print Assumptions inference_order_independent.
+
+Example inference_order_independent_nonvacuous :
+  let g1 := set_pending (g_pending infer_example ++ [("q", "a", [])]) infer_example in
+  g_pending g1 = [("p", "q", []); ("q", "a", [])] /\
+  resolvable g1 ("p", "q", []) = false /\ resolvable g1 ("q", "a", []) = true /\
+  g_pending (update_pending g1) = [] /\ in_typed (update_pending g1) "p" = true.
+Proof. exact infer_example_run. Qed.
+
+(* ------------------------------------------------------------------ determinism of Workflow.Compile *)
+(* Workflow.compile applies the deferred inputs node by node in Go's map order ([ord]).  At
+   every point of every call sequence (whatever orders earlier Compiles took), whether the
+   next Compile ACCEPTS does not depend on the order it takes; and whether its node phase
+   meets a deferred error depends only on the set of nodes, not on the order.  (Which
+   error a rejected Compile reports, and what it leaves behind, does depend on the order:
+   [two_failing_orders].) *)
+Theorem workflow_compile_order_independent :
+  (forall st cs o ord1 ord2,
+      let w := final (wstep fixed) (w_init st) cs in
+      is_compiled (snd (wstep fixed w (WCompile o ord1))) = is_compiled (snd (wstep fixed w (WCompile o ord2))))
+  /\ (forall w L1 L2, (forall k, In k L1 <-> In k L2) ->
+      (snd (run_nodes w L1) = None <-> snd (run_nodes w L2) = None)).
+Proof.
+  split.
+  - intros st cs o ord1 ord2 w. apply w_compile_order_independent. apply reachable_wf_ok.
+  - exact run_nodes_verdict_order_independent.
+Qed.
+Print Assumptions workflow_compile_order_independent.
+
+Example workflow_compile_order_nonvacuous :
+  let w := final (wstep fixed) (w_init false) two_failing in
+  snd (w_compile fixed w opt_default ["a"]) = OErr EEdgeStartUnknown /\
+  snd (w_compile fixed w opt_default ["b"]) = OErr EMapped.
+Proof. exact two_failing_orders. Qed.
 
 (* ------------------------------------------------------------------ the repaired defects *)
 (* F-C20a: on the original code a Workflow branch to a node that was never added made
